@@ -523,3 +523,61 @@ Proof.
     specialize (H (mkTrace [1]%N [0]%N false 0 [] [] VNoSplit ORaw OPanic OPanic None)). discriminate.
   - intros ->. reflexivity.
 Qed.
+
+(* ---------- 7. which secrets are the same HMAC key ---------- *)
+Section HMACKey.
+Variable H : bytes -> bytes.
+Variable B : nat.
+Local Notation hk := (hmac_key H B).
+
+Lemma hmac_key_block k : length k = B -> hk k = k.
+Proof.
+  intros E. unfold hmac_key. rewrite E, Nat.ltb_irrefl. cbn zeta. rewrite E, Nat.sub_diag. apply app_nil_r.
+Qed.
+
+Lemma hmac_key_length k : (B < length k -> length (H k) <= B)%nat -> length (hk k) = B.
+Proof.
+  intros Hh. unfold hmac_key. destruct (Nat.ltb B (length k)) eqn:E; cbn zeta; rewrite app_length, repeat_length.
+  - apply Nat.ltb_lt in E. specialize (Hh E). lia.
+  - apply Nat.ltb_ge in E. lia.
+Qed.
+
+(* the block of a secret, used as a secret, is the same key: for every secret whose length is not
+   the block size there is a DIFFERENT secret with the same key (for a 100-byte secret under HS256:
+   its SHA-256 followed by 32 zero bytes) *)
+Lemma hmac_key_idem k : (B < length k -> length (H k) <= B)%nat -> hk (hk k) = hk k.
+Proof. intros Hh. apply hmac_key_block. apply hmac_key_length. exact Hh. Qed.
+
+Theorem secrets_not_injective k :
+  (B < length k -> length (H k) <= B)%nat -> length k <> B -> exists k', k' <> k /\ hk k' = hk k.
+Proof.
+  intros Hh Hl. exists (hk k). split.
+  - intros E. apply Hl. rewrite <- E. apply hmac_key_length. exact Hh.
+  - apply hmac_key_idem. exact Hh.
+Qed.
+
+(* trailing zero bytes below the block size do not count *)
+Lemma hmac_key_zero_ext k n : (length k + n <= B)%nat -> hk (k ++ repeat 0%N n) = hk k.
+Proof.
+  intros L. unfold hmac_key. rewrite app_length, repeat_length.
+  destruct (Nat.ltb B (length k + n)) eqn:E1; [apply Nat.ltb_lt in E1; lia|].
+  destruct (Nat.ltb B (length k)) eqn:E2; [apply Nat.ltb_lt in E2; lia|]. cbn zeta.
+  rewrite app_length, repeat_length, <- app_assoc, <- repeat_app. f_equal. f_equal. lia.
+Qed.
+
+(* secrets of one length up to the block size: different secrets are different keys *)
+Theorem hmac_key_short_inj k k' : length k = length k' -> (length k <= B)%nat -> hk k = hk k' -> k = k'.
+Proof.
+  intros El L. unfold hmac_key. rewrite <- El.
+  destruct (Nat.ltb B (length k)) eqn:E; [apply Nat.ltb_lt in E; lia|]. cbn zeta. rewrite <- El.
+  apply app_inv_tail.
+Qed.
+
+(* secrets longer than the block: different keys unless the hash collides *)
+Theorem hmac_key_long_inj k k' :
+  (B < length k)%nat -> (B < length k')%nat -> length (H k) = length (H k') -> hk k = hk k' -> H k = H k'.
+Proof.
+  intros L L' El. unfold hmac_key.
+  apply Nat.ltb_lt in L. apply Nat.ltb_lt in L'. rewrite L, L'. cbn zeta. rewrite <- El. apply app_inv_tail.
+Qed.
+End HMACKey.
